@@ -259,7 +259,79 @@ func (c *Ctx) elementsRewritten(fn *ssa.Function, prefix, key string) bool {
 	return len(c.effects()[fn].may[joinPath("p0", rel)]) > 0
 }
 
+// wrappedResetCover: the streaming wrapper's Reset resets the wrapped parser and installs the reader on every path
+// that returns (whatever reader it is given): a wrapper that keeps the parser's window, position or search structures
+// produces blocks that depend on the previous stream.
+func (c *Ctx) wrappedResetCover() {
+	wp := c.namedType(c.lz, "WrappedParser")
+	if wp == nil {
+		return
+	}
+	fn := c.method(wp, "Reset")
+	key := "lz.(*WrappedParser).Reset"
+	if fn == nil {
+		c.fail(key, token.NoPos, "method not found")
+		return
+	}
+	// blocks that perform the inner Reset (an invoke of Reset on a field of the receiver) / store a reader field
+	inner, store := map[*ssa.BasicBlock]bool{}, map[*ssa.BasicBlock]bool{}
+	for _, b := range fn.Blocks {
+		for _, in := range b.Instrs {
+			switch x := in.(type) {
+			case *ssa.Call:
+				if x.Call.IsInvoke() && x.Call.Method.Name() == "Reset" {
+					if _, _, ok := recvPathOf(fn, x.Call.Value); ok {
+						inner[b] = true
+					}
+				}
+			case *ssa.Store:
+				if _, ok := recvPath(fn, x.Addr); ok && len(fn.Params) > 1 && x.Val == ssa.Value(fn.Params[1]) {
+					store[b] = true
+				}
+			}
+		}
+	}
+	avoid := func(set map[*ssa.BasicBlock]bool) *ssa.BasicBlock {
+		seen := map[*ssa.BasicBlock]bool{}
+		work := []*ssa.BasicBlock{fn.Blocks[0]}
+		for len(work) > 0 {
+			b := work[len(work)-1]
+			work = work[:len(work)-1]
+			if seen[b] || set[b] {
+				continue
+			}
+			seen[b] = true
+			if _, ok := b.Instrs[len(b.Instrs)-1].(*ssa.Return); ok {
+				return b
+			}
+			work = append(work, b.Succs...)
+		}
+		return nil
+	}
+	if b := avoid(inner); b != nil {
+		c.fail(key+":inner-reset", b.Instrs[len(b.Instrs)-1].Pos(), "WrappedParser.Reset can return without resetting the wrapped parser: the next stream is parsed with the previous stream's window and search structures")
+	} else {
+		c.ok(key+":inner-reset", fn.Pos(), "the wrapped parser is reset on every returning path")
+	}
+	if b := avoid(store); b != nil {
+		c.fail(key+":reader", b.Instrs[len(b.Instrs)-1].Pos(), "WrappedParser.Reset can return without installing the reader it was given")
+	} else {
+		c.ok(key+":reader", fn.Pos(), "the reader is installed on every returning path")
+	}
+}
+
+// recvPathOf: v is a load of a field path of fn's receiver.
+func recvPathOf(fn *ssa.Function, v ssa.Value) (ssa.Value, string, bool) {
+	ld, ok := v.(*ssa.UnOp)
+	if !ok || ld.Op != token.MUL {
+		return nil, "", false
+	}
+	p, ok := recvPath(fn, ld.X)
+	return ld, p, ok
+}
+
 func ruleResetCover(c *Ctx) {
+	c.wrappedResetCover()
 	for _, p := range c.parsers() {
 		c.coverCheck(p, p.Reset, "Reset", nil, "re-initialised")
 		// the buffer itself: Data replaced/emptied, W and Off set to zero on every success path
@@ -635,8 +707,13 @@ func ruleNoGlobal(c *Ctx) {
 			t := g.Type().(*types.Pointer).Elem()
 			key := pkg.Pkg.Name() + "." + n
 			if !isErrorType(t) {
-				bad++
-				c.fail(key, g.Pos(), "package-level variable of type %s: only immutable error values are expected at package level (shared mutable state breaks instance isolation)", t)
+				if ro, why := c.readOnlyGlobal(g); ro {
+					c.ok(key+":read-only", g.Pos(), "package-level %s is a lookup table: immutable elements, written only by the package initialiser, only read elsewhere", t)
+					continue
+				} else {
+					bad++
+					c.fail(key, g.Pos(), "package-level variable of type %s (%s): only immutable error values and read-only tables are expected at package level (shared mutable state breaks instance isolation)", t, why)
+				}
 			}
 		}
 		// stores outside init
@@ -656,7 +733,7 @@ func ruleNoGlobal(c *Ctx) {
 			}
 		}
 		if bad == 0 {
-			c.ok(pkg.Pkg.Name()+":globals", token.NoPos, "%d package-level variables, all error values; no store outside init", len(names))
+			c.ok(pkg.Pkg.Name()+":globals", token.NoPos, "%d package-level variables, all error values or read-only tables; no store outside init", len(names))
 		}
 	}
 }
